@@ -3,6 +3,7 @@
 package ev
 
 import (
+	"runtime/debug"
 	"bufio"
 	"crypto/sha256"
 	"encoding/hex"
@@ -62,6 +63,7 @@ func Start(id, level string) *Run {
 	r := &Run{ID: id, Level: level, Tier: "quick", start: time.Now(),
 		counts: map[string]int64{}, extra: map[string]any{}, dist: map[string]struct{}{},
 		violKey: map[string]bool{}, knownHit: map[string]bool{}, maxSamp: 8}
+	current = r
 	if t := os.Getenv("VERIF_TIER"); t == "quick" || t == "thorough" {
 		r.Tier = t
 	}
@@ -286,6 +288,44 @@ func summary(cov map[string]any) string {
 	return strings.Join(parts, " ")
 }
 
+var current *Run
+
+// guardedCall: a Go panic that ORIGINATES in the library under test (first non-runtime frame below
+// panic() is in github.com/onflow/crypto, not in the harness and not in the scheduler shim) while a
+// case of a parallel part runs is reported as a violation ("panic:<library function>") instead of
+// taking the whole check down with exit status 2. A panic that originates in harness code is re-raised.
+func guardedCall(f func(int), i int) {
+	defer func() {
+		r := recover()
+		if r == nil {
+			return
+		}
+		st := string(debug.Stack())
+		origin := ""
+		lines := strings.Split(st, "\n")
+		for k, l := range lines {
+			if strings.HasPrefix(l, "panic(") {
+				for _, m := range lines[k+1:] {
+					if m == "" || m[0] == '\t' || strings.HasPrefix(m, "runtime.") || strings.HasPrefix(m, "runtime/") {
+						continue
+					}
+					origin = m
+					break
+				}
+				break
+			}
+		}
+		if current == nil || !strings.HasPrefix(origin, "github.com/onflow/crypto") || strings.Contains(origin, "zzverif") {
+			panic(r)
+		}
+		if p := strings.Index(origin, "("); p > 0 {
+			origin = origin[:p]
+		}
+		current.Violation("panic:"+origin, fmt.Sprintf("the library panicked: %v (case %d of a parallel part; the panic originates in %s)", r, i, origin), map[string]any{"panic": fmt.Sprint(r), "stack": st})
+	}()
+	f(i)
+}
+
 // Par runs f(i) for i in [0,n) on all CPUs.
 func Par(n int, f func(i int)) {
 	w := runtime.NumCPU()
@@ -305,7 +345,7 @@ func Par(n int, f func(i int)) {
 		go func() {
 			defer wg.Done()
 			for i := range ch {
-				f(i)
+				guardedCall(f, i)
 			}
 		}()
 	}
